@@ -256,29 +256,54 @@ def rule_rows(prog, rep, fn):
     # models are handed on in the order in which they first appear in the file (the PDB reader keeps the first MODEL it meets)
     from ..guards import Flow
     from ..objinterp import ObjRunner
-    nums = ["9", "9", "10", "10", "9", "2"]
-    atoms_m = {"__class__": "DataCategory", "row_count": len(nums)}
-    block_m = {"__class__": "DataContainer"}
+    cm = prog.func("cif.py", "count_models")
+    wcm = f"pdb2pqr/cif.py:{cm.node.lineno} (count_models)"
+
+    def category(nums, items):
+        """Model of the parser's atom_site category: the items in the given column order, one row per model number."""
+        rows = [[n_ if it_ == "pdbx_PDB_model_num" else f"{it_}:{k}" for it_ in items] for k, n_ in enumerate(nums)]
+        return {"__class__": "DataCategory", "name": "atom_site", "row_count": len(nums), "attribute_list": list(items), "row_list": rows, "data": rows}
+
+    current = {}
 
     def extra(runner, interp, call, args, kw):
-        if isinstance(call.func, ast.Attribute) and call.func.attr in ("get_object", "get_value"):
+        if isinstance(call.func, ast.Attribute) and call.func.attr in ("get_object", "get_value", "get_attribute_index", "get_attribute_list", "has_attribute",
+                                                                        "get_value_or_default", "get_row_count", "get_name"):
             recv = interp.ev(call.func.value)
-            if recv is block_m and call.func.attr == "get_object" and args == ["atom_site"]:
-                return atoms_m
-            if recv is atoms_m and call.func.attr == "get_value" and args and args[0] == "pdbx_PDB_model_num":
-                return nums[args[1]]
+            a_ = call.func.attr
+            if recv is current["block"] and a_ == "get_object":
+                return current["atoms"] if args and args[0] == "atom_site" else None
+            if isinstance(recv, dict) and recv.get("__class__") == "DataCategory":
+                items = recv["attribute_list"]
+                if a_ in ("get_value", "get_value_or_default") and args and args[0] in items:
+                    return recv["row_list"][args[1] if len(args) > 1 else 0][items.index(args[0])]
+                if a_ == "get_attribute_index" and args:
+                    return items.index(args[0]) if args[0] in items else -1
+                if a_ == "get_attribute_list":
+                    return list(items)
+                if a_ == "has_attribute" and args:
+                    return args[0] in items
+                if a_ == "get_row_count":
+                    return recv["row_count"]
+                if a_ == "get_name":
+                    return recv["name"]
         return NotImplemented
 
-    cm = prog.func("cif.py", "count_models")
+    # three files read one after the other in one process; mmCIF prescribes no item order, so each lists its items in another column order
+    files = [(["9", "9", "10", "10", "9", "2"], ["group_PDB", "id", "pdbx_PDB_model_num", "Cartn_x"]),
+             (["1", "1", "2"], ["pdbx_PDB_model_num", "group_PDB", "label_entity_id", "id", "Cartn_x"]),
+             (["5", "4", "4"], ["group_PDB", "id", "label_entity_id", "Cartn_x", "pdbx_PDB_model_num"])]
     run = ObjRunner(prog, "cif.py", extra_hook=extra)
-    try:
-        got = run.call_function("cif.py", "count_models", block_m)
-    except Flow as fl:
-        got = f"raises {fl.value}"
-    want = ["9", "10", "2"]
-    r7.add("model-order", got == want, f"rows with model numbers {nums}: count_models yields {got}; order of first appearance is {want}" +
-           ("" if got == want else " -- the first model emitted (the only one the pipeline keeps) is then not the first model of the file"),
-           f"pdb2pqr/cif.py:{cm.node.lineno} (count_models)")
+    for k, (nums, items) in enumerate(files):
+        current["atoms"], current["block"] = category(nums, items), {"__class__": "DataContainer"}
+        want = [x for i, x in enumerate(nums) if x not in nums[:i]]
+        key = "model-order" if k == 0 else f"model-order|file {k + 1} of one process"
+        try:
+            got = run.call_function("cif.py", "count_models", current["block"])
+        except Flow as fl:
+            got = f"raises {fl.value}"
+        r7.add(key, got == want, f"rows with model numbers {nums} (items in column order {items}): count_models yields {got}; order of first appearance is {want}" +
+               ("" if got == want else " -- the first model emitted (the only one the pipeline keeps) is then not the first model of the file"), wcm)
 
 
 def _strip_rec(sig):
